@@ -90,6 +90,8 @@ pub struct HCtx {
     pub l1: Ctx,
     pub allow: Option<Vec<u32>>, // symbolic client numbers
     pub web: Option<WebServer>,
+    /// WebServer objects of the other server instances (see Ctx::switch_inst)
+    pub webs: std::collections::HashMap<u32, WebServer>,
 }
 
 fn id_form(u: Uuid, form: &str) -> Vec<u8> {
@@ -120,7 +122,7 @@ pub fn id_form_ok(form: &str) -> bool {
 impl HCtx {
     pub fn new(backend: Backend, seed: u64) -> Self {
         let l1 = Ctx::new(backend, seed);
-        let mut h = HCtx { l1, allow: None, web: None };
+        let mut h = HCtx { l1, allow: None, web: None, webs: std::collections::HashMap::new() };
         h.rebuild();
         h
     }
@@ -358,6 +360,22 @@ impl HCtx {
             ["cfg", d, v] => {
                 self.l1.set_cfg(d.parse().unwrap(), v.parse().unwrap());
                 self.rebuild();
+            }
+            ["inst", k] => {
+                let k: u32 = k.parse().unwrap();
+                if self.l1.backend == Backend::Sqlite && k != self.l1.cur_inst {
+                    let old = self.l1.cur_inst;
+                    if let Some(w) = self.web.take() {
+                        self.webs.insert(old, w);
+                    }
+                    self.l1.switch_inst(k);
+                    match self.webs.remove(&k) {
+                        Some(w) => self.web = Some(w),
+                        None => self.rebuild(),
+                    }
+                }
+                self.l1.out.push("OP reopen".to_string());
+                self.l1.out.push("R unit".to_string());
             }
             ["reopen"] => {
                 self.web = None;
